@@ -5,6 +5,7 @@ CONSTANTS
   Periods <- PeriodsA
   MaxNow = 4
   EnvOps = {"stop", "abort"}
+  Stalls = {}
   VirtualClock = FALSE
   Instant = FALSE
   UnstartedKillsInterval = TRUE
